@@ -99,9 +99,14 @@ class Responder(StreamWatcher):
         new = stream[index:]
         # Search, across lines if necessary
         matches = re.findall(pattern, new, re.S)
-        # Update seek index if we've matched
+        # Update seek index if we've matched: move it just past the last
+        # match (not to the end of the stream, which may hold the beginning of
+        # an occurrence whose remainder has yet to arrive.)
         if matches:
-            setattr(self, index_attr, index + len(new))
+            last_end = 0
+            for found in re.finditer(pattern, new, re.S):
+                last_end = found.end()
+            setattr(self, index_attr, index + last_end)
         return matches
 
     def submit(self, stream: str) -> Generator[str, None, None]:
